@@ -253,7 +253,7 @@ func Main(t *testing.T, engine string, f RunFunc) {
 	if tier == "" {
 		tier = "quick"
 	}
-	env := &Env{Property: property, Tier: tier}
+	env := &Env{Property: property, Tier: tier, KeepTrace: os.Getenv("VERIF_DUMP_MISMATCH") != ""}
 	if rp := os.Getenv("VERIF_REPLAY"); rp != "" {
 		replayMain(t, engine, f, env, rp)
 		return
@@ -327,12 +327,8 @@ func Main(t *testing.T, engine string, f RunFunc) {
 				res.RecheckMismatch++
 				fmt.Fprintf(os.Stderr, "DETERMINISM MISMATCH engine=%s property=%s seed=%d run=%d %s vs %s\n", engine, property, seed, run, out.TraceHash, out2.TraceHash)
 				if os.Getenv("VERIF_DUMP_MISMATCH") != "" {
-					e2 := *env
-					e2.KeepTrace = true
-					a := execOnce(t, engine, f, tape.Replay(tp.Consumed()), &e2)
-					b := execOnce(t, engine, f, tape.Replay(tp.Consumed()), &e2)
-					_ = os.WriteFile(fmt.Sprintf("/dev/shm/mismatch-%s-%d-a.txt", engine, run), []byte(strings.Join(a.Trace, "\n")), 0o644)
-					_ = os.WriteFile(fmt.Sprintf("/dev/shm/mismatch-%s-%d-b.txt", engine, run), []byte(strings.Join(b.Trace, "\n")), 0o644)
+					_ = os.WriteFile(fmt.Sprintf("/dev/shm/mismatch-%s-%d-a.txt", engine, run), []byte(strings.Join(out.Trace, "\n")), 0o644)
+					_ = os.WriteFile(fmt.Sprintf("/dev/shm/mismatch-%s-%d-b.txt", engine, run), []byte(strings.Join(out2.Trace, "\n")), 0o644)
 				}
 			}
 		}
